@@ -20,6 +20,10 @@ let hex_of_bytes (b : n list) : string = String.concat "" (List.map (fun x -> Pr
 let split2 (s : string) (c : char) : string * string =
   let i = String.index s c in (String.sub s 0 i, String.sub s (i + 1) (String.length s - i - 1))
 let rest w = String.sub w 1 (String.length w - 1)
+let parse_key (k : string) : key =
+  if String.length k > 0 && k.[0] = '$' then KStr (bytes_of_hex (String.sub k 1 (String.length k - 1)))
+  else KInt (z_of_int (int_of_string k))
+let key_str (k : key) : string = match k with KInt z -> "i:" ^ string_of_int (int_of_z z) | KStr b -> "s:" ^ hex_of_bytes b
 (* parse a block of tokens up to ")" ; returns (prog, remaining tokens) *)
 let rec parse_block (ts : string list) : prog * string list =
   match ts with
@@ -36,17 +40,18 @@ let rec parse_block (ts : string list) : prog * string list =
      | 'n' -> mk (ISet (n_of_int (int_of_string (rest w)), SNil)) r
      | 'a' -> let (xk, v) = split2 (rest w) '=' in let (x, k) = split2 xk '.' in
        let sv = if v = "nil" then SNil else SInt (z_of_int (int_of_string v)) in
-       mk (ISetElem (n_of_int (int_of_string x), z_of_int (int_of_string k), sv)) r
+       mk (ISetElem (n_of_int (int_of_string x), parse_key k, sv)) r
      | 'c' -> let (x, y) = split2 (rest w) '=' in mk (ICopy (n_of_int (int_of_string x), n_of_int (int_of_string y))) r
      | 'A' -> let (xk, y) = split2 (rest w) '=' in let (x, k) = split2 xk '.' in
-       mk (ISetElemVar (n_of_int (int_of_string x), z_of_int (int_of_string k), n_of_int (int_of_string y))) r
+       mk (ISetElemVar (n_of_int (int_of_string x), parse_key k, n_of_int (int_of_string y))) r
      | 'g' -> let (y, xk) = split2 (rest w) '=' in let (x, k) = split2 xk '.' in
-       mk (IGetElem (n_of_int (int_of_string y), n_of_int (int_of_string x), z_of_int (int_of_string k))) r
+       mk (IGetElem (n_of_int (int_of_string y), n_of_int (int_of_string x), parse_key k)) r
      | 'C' -> let (x, items) = split2 (rest w) '=' in
        let item it = if it.[0] = 'v' then CVar (n_of_int (int_of_string (rest it))) else CLit (SInt (z_of_int (int_of_string (rest it)))) in
        mk (IConst (n_of_int (int_of_string x), List.map item (String.split_on_char ',' items))) r
      | 'v' -> mk (IPrintVar (n_of_int (int_of_string (rest w)))) r
-     | 'e' -> let (x, k) = split2 (rest w) '.' in mk (IPrintElem (n_of_int (int_of_string x), z_of_int (int_of_string k))) r
+     | 'e' -> let (x, k) = split2 (rest w) '.' in mk (IPrintElem (n_of_int (int_of_string x), parse_key k)) r
+     | 'z' -> mk (IPrintSize (n_of_int (int_of_string (rest w)))) r
      | 't' ->
        let args = if String.length w > 2 && w.[1] = ':' then
            List.map (fun a -> n_of_int (int_of_string a)) (String.split_on_char ',' (String.sub w 2 (String.length w - 3))) else [] in
@@ -93,7 +98,7 @@ let dump (s : st) : string =
          if con then
            tag ^ string_of_int nn ^ "[" ^ String.concat "," (List.map (fun (_, x) -> val_str x) o) ^ "]"
          else begin
-           let ents = List.map (fun (k, x) -> ("i:" ^ string_of_int (int_of_z k), x)) o in
+           let ents = List.map (fun (k, x) -> (key_str k, x)) o in
            let ents = List.sort (fun (a, _) (c, _) -> key_cmp a c) ents in
            tag ^ string_of_int nn ^ "{" ^ String.concat "," (List.map (fun (k, x) -> k ^ "=" ^ val_str x) ents) ^ "}"
          end) in
